@@ -463,7 +463,8 @@ impl<'a, T: Transformation + ?Sized> Iterator for OneIter<'a, T> {
     }
 
     fn nth(&mut self, n: usize) -> Option<Self::Item> {
-        if self.next.0 + n >= self.limit.0 {
+        // Compare with the number of remaining values; `self.next.0 + n` may overflow.
+        if n >= self.limit.0 - self.next.0 {
             self.next = self.limit;
             return None;
         }
